@@ -200,6 +200,10 @@ func (t *flatCallTracer) CaptureExit(output []byte, gasUsed uint64, err error) {
 	if t.config.IncludePrecompiles {
 		return
 	}
+	if t.tracer.callstack[len(t.tracer.callstack)-1].joinPoint != types.JoinPointRunType_Unknown {
+		// the call was issued by a running Aspect and has been attached to the Aspect frame, not to parent.Calls
+		return
+	}
 	var (
 		// call has been nested in parent
 		parent = t.tracer.callstack[len(t.tracer.callstack)-1]
